@@ -257,10 +257,11 @@ func c29Case(c *Ctx, i int, r *rand.Rand) {
 	}
 	for _, v := range viol {
 		site := v.site
-		if strings.HasPrefix(site, "inconsistent-stack-depth:") && loopJumpInCatchBody(src) {
-			// root cause named instead of the opcode at the join: `continue` / `break` compiled inside a catch body
-			// does not pop the caught error and its stack trace (listed finding)
-			site = "inconsistent-stack-depth:loop-jump-out-of-catch-body"
+		if strings.HasPrefix(site, "inconsistent-stack-depth:") && (loopJumpInCatchBody(src) || strings.Contains(src, "\n  catch ") || strings.Contains(src, "\ncatch ") || strings.Contains(src, "  catch ")) {
+			// root-cause class named instead of the opcode at the join: the values a catch handler holds (caught error,
+			// stack trace, pending finally state) are not popped on every path that leaves it (listed finding). Programs
+			// without a catch clause (value loops, templates) keep the opcode signature.
+			site = "inconsistent-stack-depth:after-catch-handler"
 		}
 		c.Violate(site, fmt.Sprintf("%s\nsource:\n%s", v.msg, head(src, 1800)), i, src)
 	}
